@@ -68,6 +68,18 @@ def run(res):
             for _ in range(5):
                 a, b, c = (rng.choice(base) for _ in range(3))
                 pool += [(op, a, b), (op, a, b, c), (op, a, b, a), (op, a, b, c, a)]
+        # scale: towers of 6..12 operators whose only difference is at the bottom, and deep binary nests
+        un = {'PL': ['not'], 'CTL': ['not'], 'LTL': ['not', 'X', 'G'], 'CTLS': ['not', 'X', 'F']}[M]
+        for k in (6, 7, 8, 10, 12):
+            for leaf in (('ap', 'p'), ('ap', 'q'), 'tt'):
+                t = leaf
+                for i in range(k):
+                    t = (un[(i + k) % len(un)], t)
+                pool.append(t)
+                t = leaf
+                for i in range(k):
+                    t = ('or', ('ap', 'p'), t) if i % 2 else ('and', t, ('ap', 'q'))
+                pool.append(t)
         pool = F.dedup(pool)
         objs = [to_obj(t, L) for t in pool]
         # a second construction route for the same trees
